@@ -248,6 +248,12 @@ impl Property for C08 {
                 st.label("joined: trivial");
             }
         }
+        if msgs.raw.iter().any(|r| r.is_some()) {
+            st.label("message written as raw bytes (as_mut_bytes + assume_init)");
+        }
+        if msgs.post_ops.iter().any(|o| !o.is_empty()) {
+            st.label("message modified through the send guard before send");
+        }
         Ok(())
     }
 }
